@@ -294,6 +294,7 @@ GRAPHS = [
     (["sysenv", "use", "reuse"], [("sysenv", "use", "ab"), ("use", "reuse", "ba"), ("reuse", "sysenv", "ab")], []),
     (["sysenv", "use"], [("sysenv", "use", ""), ("use", "sysenv", "t"), ("use", "sysenv", "")], []),       # flows without any dimension
     (["use", "sysenv", "waste"], [("sysenv", "use", "ta"), ("use", "waste", "ta")], [("waste", "ta")]),      # hand-built: the system environment is not listed first
+    (["sysenv", "use"], [("sysenv", "use", "ta"), ("use", "sysenv", "ta")], [("sysenv", "t"), ("use", "ta")]),      # a stock kept by the system environment (id 0)
 ]
 
 
